@@ -893,3 +893,78 @@ pub async fn serial_gap(scenario: usize, k: usize, ev: &mut Evidence) -> Vec<(St
     let _ = tokio::time::timeout(Duration::from_secs(5), jh).await;
     problems
 }
+
+/// "The sequence restarts at min after any successful connection" - also when the successful
+/// opening ended without any failure: failed opens (doubling advances), the port appears and is
+/// opened, the channel is disabled and enabled again (k even) or shut ... while the port is gone
+/// again: the first wait of the new sequence is `min`.
+pub async fn serial_client_restart(k: usize, ev: &mut Evidence) -> Vec<(String, String)> {
+    let mut problems = vec![];
+    let Some(pty) = Pty::open() else {
+        ev.count("pty_unavailable", 1);
+        return problems;
+    };
+    let link = unique_link("restart");
+    let nowhere = format!("{link}.nowhere");
+    if !point_link(&link, &nowhere) {
+        ev.count("pty_unavailable", 1);
+        return problems;
+    }
+    let min = Duration::from_millis([60u64, 90][k % 2]);
+    let max = Duration::from_millis(2000);
+    let (tx, mut rx) = mpsc::unbounded_channel();
+    let (channel, task) = create_rtu_client_task(&link, settings(), 4, doubling_retry_strategy(min, max), DecodeLevel::nothing(), Some(Box::new(PortGate { tx })));
+    let jh = tokio::spawn(task.run());
+    let mut seen: Vec<&'static str> = vec![];
+    let fails_before = 2 + k % 3;
+    'script: {
+        let _ = channel.enable().await;
+        let mut waits = vec![];
+        for _ in 0..fails_before {
+            match next_port_state(&mut rx, "Wait", Duration::from_secs(5), &mut seen).await {
+                Some((PortState::Wait(d), _)) => waits.push(d),
+                _ => {
+                    ev.inconclusive(format!("serial restart leg: expected a wait, states {seen:?}"));
+                    break 'script;
+                }
+            }
+        }
+        // the port appears: the attempt after the current wait opens it
+        if !point_link(&link, &pty.slave_path) {
+            ev.inconclusive("serial restart leg: cannot point the link at the pty");
+            break 'script;
+        }
+        if next_port_state(&mut rx, "Open", Duration::from_secs(6), &mut seen).await.is_none() {
+            problems.push(("serial_restart:port_never_open".into(), format!("states {seen:?}")));
+            break 'script;
+        }
+        let _ = channel.disable().await;
+        if next_port_state(&mut rx, "Disabled", Duration::from_secs(3), &mut seen).await.is_none() {
+            problems.push(("serial_restart:no_disabled_after_disable".into(), format!("states {seen:?}")));
+            break 'script;
+        }
+        // the port is gone again when the channel is enabled
+        if !point_link(&link, &nowhere) {
+            ev.inconclusive("serial restart leg: cannot re-point the link");
+            break 'script;
+        }
+        let _ = channel.enable().await;
+        let Some((PortState::Wait(d), _)) = next_port_state(&mut rx, "Wait", Duration::from_secs(5), &mut seen).await else {
+            problems.push(("serial_restart:no_wait_after_failed_open".into(), format!("states {seen:?}")));
+            break 'script;
+        };
+        ev.eval();
+        ev.count("serial_restart_sequences", 1);
+        ev.class(format!("serial_restart|failed_opens_before={fails_before}|first_wait_after={}", if d == min { "min" } else { "other" }));
+        if d != min {
+            problems.push((
+                "serial_restart:delay_not_restarted_at_min".into(),
+                format!("{fails_before} failed opens (waits {waits:?}), then the port was opened, the channel disabled and enabled again with the port gone: the first wait is {d:?}, the strategy's minimum is {min:?}"),
+            ));
+        }
+    }
+    let _ = channel.shutdown().await;
+    let _ = tokio::time::timeout(Duration::from_secs(5), jh).await;
+    let _ = std::fs::remove_file(&link);
+    problems
+}
